@@ -47,6 +47,7 @@ const (
 	findD20   = "C13-D20-rangesToChunks-index"
 	findNilM  = "C13-nil-measurement-deref"
 	findRange = "C13-range-beyond-image"
+	findOneReg = "C13-single-corrected-register"
 )
 
 const physBase = uint64(0x100000000)
@@ -145,6 +146,14 @@ func flows() []struct {
 			tpmsteps.InitTPM(3, true),
 			tpmsteps.Measure(0, evPostCode, dxe),
 			tpmsteps.Measure(0, tpmeventlog.EV_SEPARATOR, datasources.Bytes{0, 0, 0, 0}),
+		}), false},
+		// PCR0_DATA measured twice: two repairable entries, one returned register
+		{"two-pcr0data", 0x0000000200108681, true, types.NewFlow("c13-flow-f", types.Steps{
+			commonsteps.SetActor(intelactors.ACM{}),
+			tpmsteps.InitTPM(0, false),
+			intelsteps.MeasurePCR0DATA{},
+			tpmsteps.Measure(0, tpmeventlog.EV_SEPARATOR, datasources.Bytes{0, 0, 0, 0}),
+			intelsteps.MeasurePCR0DATA{},
 		}), false},
 		// an Extend without an EventLog entry: alignLogAndMeasurements refuses
 		{"extend-without-log", 0, false, types.NewFlow("c13-flow-e", types.Steps{
@@ -275,6 +284,34 @@ func (b *boot) pcr0(alg tpm2.Algorithm) (mIdx, evIdx int, raw []byte) {
 		}
 	}
 	return -1, -1, nil
+}
+
+type pcr0Info struct {
+	m, ev int
+	raw   []byte
+}
+
+// all PCR0_DATA measurements of the bank, paired in order with the simulated events carrying their digest
+func (b *boot) pcr0All(alg tpm2.Algorithm) []pcr0Info {
+	s := b.proc.CurrentState
+	used := map[int]bool{}
+	var out []pcr0Info
+	for j := range s.MeasuredData {
+		m := &s.MeasuredData[j]
+		if _, ok := m.Step.(intelsteps.MeasurePCR0DATA); !ok {
+			continue
+		}
+		r := m.RawBytes()
+		d := hashOf(alg, r)
+		for _, i := range b.simIdx(alg) {
+			if !used[i] && bytes.Equal(b.tp.EventLog[i].Digest, d) {
+				used[i] = true
+				out = append(out, pcr0Info{j, i, r})
+				break
+			}
+		}
+	}
+	return out
 }
 
 func hashOf(alg tpm2.Algorithm, msg []byte) []byte {
@@ -422,14 +459,13 @@ type genCtx struct {
 }
 
 func (g *genCtx) pcr0Digest(v uint64) []byte {
-	mi, _, raw := g.b.pcr0(g.alg)
-	if mi < 0 {
-		return nil
+	var d []byte
+	for _, p := range g.b.pcr0All(g.alg) {
+		buf := append([]byte{}, p.raw...)
+		binary.LittleEndian.PutUint64(buf, v)
+		d = hashOf(g.alg, buf)
+		g.hp = append(g.hp, hpEntry{p.m, v, d})
 	}
-	buf := append([]byte{}, raw...)
-	binary.LittleEndian.PutUint64(buf, v)
-	d := hashOf(g.alg, buf)
-	g.hp = append(g.hp, hpEntry{mi, v, d})
 	return d
 }
 
@@ -586,8 +622,10 @@ func (g *genCtx) redigestPCR0() {
 		if limit > 0 {
 			d := rng.Intn(limit)
 			v, what = reg-uint64(d), fmt.Sprintf("decrement %d < limit %d", d, limit)
-			w := v
-			g.want = &w
+			if d > 0 { // decrement 0 is the unchanged digest: a plain match, nothing to repair
+				w := v
+				g.want = &w
+			}
 			break
 		}
 		fallthrough
@@ -1077,9 +1115,11 @@ func doCase(c *gal.Ctx, kind string, g *genCtx, nilLog bool) {
 		return
 	}
 	// 2. truthful statuses
-	pm, pe, praw := b.pcr0(g.alg)
+	pAll := b.pcr0All(g.alg)
+	_, pe, _ := b.pcr0(g.alg)
 	issuesWanted := 0
 	repaired := 0
+	var unjustified []int
 	for k, e := range o.Entries {
 		switch {
 		case e.Exp == -1 && e.Calc == -1:
@@ -1112,15 +1152,20 @@ func doCase(c *gal.Ctx, kind string, g *genCtx, nilLog bool) {
 			case 1:
 				repaired++
 				// only legitimate for PCR0_DATA with a corrected register that re-hashes to the recorded digest
-				if e.Calc != pe || e.Meas != pm || o.Reg == nil {
+				var pi *pcr0Info
+				for i := range pAll {
+					if pAll[i].ev == e.Calc && pAll[i].m == e.Meas {
+						pi = &pAll[i]
+					}
+				}
+				if pi == nil || o.Reg == nil {
 					fail(fmt.Sprintf("entry %d is marked matching although the digests differ and it is not a repaired PCR0_DATA entry", k))
 					return
 				}
-				buf := append([]byte{}, praw...)
+				buf := append([]byte{}, pi.raw...)
 				binary.LittleEndian.PutUint64(buf, *o.Reg)
 				if !bytes.Equal(hashOf(g.alg, buf), recD) {
-					fail(fmt.Sprintf("entry %d is marked matching but PCR0_DATA with the returned ACM_POLICY_STATUS %#x does not hash to the recorded digest", k, *o.Reg))
-					return
+					unjustified = append(unjustified, k)
 				}
 			case 2:
 			default:
@@ -1128,6 +1173,16 @@ func doCase(c *gal.Ctx, kind string, g *genCtx, nilLog bool) {
 				return
 			}
 		}
+	}
+	if len(unjustified) > 0 {
+		what := fmt.Sprintf("entries %v are marked matching but PCR0_DATA with the returned ACM_POLICY_STATUS %#x does not hash to their recorded digests", unjustified, *o.Reg)
+		if repaired >= 2 && len(unjustified) < repaired {
+			// several PCR0_DATA entries were repaired with different registers: only the last one is returned
+			c.OracleFailKnown(idx, findOneReg, what, site+":ReproduceEventLog (updatedACMPolicyStatusValue is overwritten)", descr)
+		} else {
+			fail(what)
+		}
+		return
 	}
 	if repaired == 0 && o.Reg != nil {
 		fail("a corrected ACM_POLICY_STATUS is returned although no entry was repaired")
@@ -1204,8 +1259,8 @@ func newGen(c *gal.Ctx, b *boot, alg tpm2.Algorithm) *genCtx {
 	g := &genCtx{rng: c.Rng, b: b, alg: alg, st: randSettings(c.Rng), P: []int{1, 2, 3, 4, 5, 8, 14, 16, 32}[c.Rng.Intn(9)]}
 	g.evs = recFromSim(b)
 	// the table always knows the unmodified PCR0_DATA digest
-	if mi, _, raw := b.pcr0(alg); mi >= 0 {
-		g.hp = append(g.hp, hpEntry{mi, le64first(raw), hashOf(alg, raw)})
+	for _, p := range b.pcr0All(alg) {
+		g.hp = append(g.hp, hpEntry{p.m, le64first(p.raw), hashOf(alg, p.raw)})
 	}
 	return g
 }
@@ -1323,6 +1378,8 @@ func main() {
 	c := gal.New("C13", header, 60)
 	algs := []tpm2.Algorithm{tpm2.AlgSHA1, tpm2.AlgSHA256}
 	good := boots[:4]
+	twoPCR0 := boots[4]
+	badBoot := boots[5]
 
 	// ---- probes of the known findings (fixed witnesses)
 	probeD20(c, boots[0])
@@ -1401,6 +1458,27 @@ func main() {
 		}
 	}
 
+	// ---- two PCR0_DATA measurements in one bank
+	probeTwoRegisters(c, twoPCR0)
+	for _, alg := range algs {
+		ps := twoPCR0.pcr0All(alg)
+		reg := le64first(ps[0].raw)
+		for _, dd := range [][2]int{{0, 0}, {1, 1}, {0, 2}, {3, 0}, {1, 2}, {2, 1}, {5, 9}, {9, 1}} {
+			g := newGen(c, twoPCR0, alg)
+			g.st.MaxACMPolicyLinearDistance = 8
+			g.st.EnableACMPolicyCombinatorialStrategy = false
+			k := 0
+			for _, i := range bankPos(g.evs, alg) {
+				if g.evs[i].Type == tpmeventlog.EV_S_CRTM_CONTENTS && k < 2 {
+					g.evs[i].Digest.Digest = g.pcr0Digest(reg - uint64(dd[k]))
+					k++
+				}
+			}
+			g.ops = []string{fmt.Sprintf("the two PCR0_DATA entries re-digested with ACM_POLICY_STATUS - %d and - %d", dd[0], dd[1])}
+			doCase(c, "two-pcr0data", g, false)
+		}
+	}
+
 	// ---- event data with (offset,length) pairs on a mismatching / unexpected entry
 	for k := 0; k < c.Scale(120, 1200); k++ {
 		b := good[c.Rng.Intn(len(good))]
@@ -1430,7 +1508,7 @@ func main() {
 	for k := 0; k < c.Scale(520, 6000); k++ {
 		b := good[c.Rng.Intn(len(good))]
 		if c.Rng.Intn(40) == 0 {
-			b = boots[4]
+			b = badBoot
 		}
 		alg := algs[c.Rng.Intn(2)]
 		g := newGen(c, b, alg)
@@ -1562,6 +1640,36 @@ func probeNilMeas(c *gal.Ctx, b *boot) {
 		"ReproduceEventLog on the simulated log whose startup-locality (EV_NO_ACTION) entry carries a non-zero digest: "+o.Outcome+" "+o.Msg)
 	g.ops = []string{"probe: startup-locality entry re-digested"}
 	doCase(c, "probe-nil-measurement", g, false)
+}
+
+func probeTwoRegisters(c *gal.Ctx, b *boot) {
+	g := fixedGen(c, b)
+	ps := b.pcr0All(g.alg)
+	reg := le64first(ps[0].raw)
+	k := 0
+	var digs [][]byte
+	for _, i := range bankPos(g.evs, g.alg) {
+		if g.evs[i].Type == tpmeventlog.EV_S_CRTM_CONTENTS && k < 2 {
+			g.evs[i].Digest.Digest = g.pcr0Digest(reg - uint64(k+1))
+			digs = append(digs, g.evs[i].Digest.Digest)
+			k++
+		}
+	}
+	o := runRepro(b, &tpmeventlog.TPMEventLog{Events: g.evs}, g.alg, g.st, g.P)
+	rep := false
+	if o.Outcome == "ok" && o.Reg != nil && len(digs) == 2 {
+		buf := append([]byte{}, ps[0].raw...)
+		binary.LittleEndian.PutUint64(buf, *o.Reg)
+		h := hashOf(g.alg, buf)
+		nMatch := 0
+		for _, e := range o.Entries {
+			if e.Status == 1 && e.Exp >= 0 && (bytes.Equal(g.evs[e.Exp].Digest.Digest, digs[0]) || bytes.Equal(g.evs[e.Exp].Digest.Digest, digs[1])) {
+				nMatch++
+			}
+		}
+		rep = nMatch == 2 && !bytes.Equal(h, digs[0]) && bytes.Equal(h, digs[1])
+	}
+	c.Probe(findOneReg, rep, "boot with PCR0_DATA measured twice, recorded with ACM_POLICY_STATUS-1 and -2: both entries marked matching, the single returned register justifies only the second: "+o.Outcome+" "+o.Msg)
 }
 
 func probeRange(c *gal.Ctx, b *boot) {
